@@ -113,6 +113,7 @@ struct GenOpts {
     bool multi_component = false; // names like a#3/b/ (C09)
     int max_enum = 12;
     bool long_names = false;
+    bool unique_names = false;
 };
 
 static inline std::string gen_name(Rng &r, const GenOpts &o)
@@ -156,6 +157,11 @@ static inline Table *gen_table(Tree &t, Rng &r, const GenOpts &o, int depth)
                 }
                 pd->name += "/";
             }
+        }
+        if(o.unique_names) {
+            bool clash = false;
+            for(auto &q : tb->ports) { std::string a = q->name.substr(0, q->name.find_first_of("#/")), b = pd->name.substr(0, pd->name.find_first_of("#/")); if(a == b) clash = true; }   // same stem: overlapping addresses
+            if(clash) { if(!r.chance(0.2)) --i; continue; }   // retry the slot (or give it up)
         }
         bool is_sub = !pd->name.empty() && pd->name.back() == '/';
         if(is_sub) pd->sub = gen_table(t, r, o, depth + 1);
